@@ -1,0 +1,23 @@
+//go:build verif
+
+package peer
+
+// VerifOutstanding returns the block numbers of the requests outstanding at
+// this peer (queued and sent, cancelled or not).  It reads the request queue
+// directly, from outside the peer's goroutine: call it only when the peer is
+// idle, right after a round trip through its command channel (GetStatus),
+// and cross-check the length against PeerStats.Qlen.  Should the peer's
+// goroutine be modifying the queue at the same time after all, the result is
+// either stale or ok=false, never a crash of the caller.
+func (p *Peer) VerifOutstanding() (out []uint32, ok bool) {
+	defer func() {
+		if recover() != nil {
+			out, ok = nil, false
+		}
+	}()
+	out = append(out, p.requests.VerifQueue()...)
+	for _, r := range p.requests.VerifRequested() {
+		out = append(out, r.Index)
+	}
+	return out, true
+}
